@@ -8,9 +8,9 @@ use serde_json::json;
 
 use crate::engine::*;
 use crate::gen::pset::{self as gp, PsetOpts};
-use crate::gen::{self, pool, TxOpts};
+use crate::gen::{self, ext_g6, pool, TxOpts};
 use crate::refimpl::{enc, sha256::sha256d};
-use crate::{ensure, ensure_eq};
+use crate::ensure;
 
 pub const KF_NONCE_LOST: &str = "from-tx-extract-tx-loses-nonce-of-explicit-output";
 pub const KF_COINBASE_PEGIN: &str = "extract-tx-marks-coinbase-index-as-pegin";
@@ -19,9 +19,40 @@ pub const KF_UID_SCRIPTSIG: &str = "unique-id-depends-on-final-script-sig";
 
 // ---- (a) transaction -> PSET -> transaction ------------------------------------------------
 
+/// harness-side shape predicates (the classifier of the recorded finding must not move together with the library's
+/// own `is_explicit` / `is_empty` helpers, which `Output::from_txout` consults)
+fn explicit_plain(o: &TxOut) -> bool {
+    matches!(o.asset, Asset::Explicit(_)) && matches!(o.value, Value::Explicit(_)) && enc::out_witness_empty(&o.witness)
+}
+
 fn tx_roundtrip(t: &mut Tape, ctx: &mut Ctx) -> R {
     let o = TxOpts { big: false, wellformed: true, ..TxOpts::default() };
     let tx = gen::gen_tx(t, &o);
+    roundtrip_core(&tx, ctx)?;
+    let feats = gen::tx_features(&tx);
+    for f in &feats {
+        ctx.class(&format!("feature:{}", f));
+    }
+    if feats.iter().any(|f| ["pegin", "issuance", "reissuance", "conf-value", "conf-asset", "in-witness", "out-witness"].contains(f)) {
+        ctx.nontrivial(&enc::tx_full(&tx));
+    }
+    if ctx.wants_sample("tx") && feats.len() >= 3 {
+        ctx.sample("tx", || json!({"inputs": tx.input.len(), "outputs": tx.output.len(), "features": feats}));
+    }
+    Ok(())
+}
+
+/// counts on either side of the 0xfd compact-size boundary (0xfc, 0xfd, 0xfe, 0x100, 0x101 inputs and / or outputs)
+fn tx_roundtrip_big(t: &mut Tape, ctx: &mut Ctx) -> R {
+    let tx = ext_g6::gen_tx_bigcount(t);
+    roundtrip_core(&tx, ctx)?;
+    ctx.class(&format!("bigcount:inputs={}", if tx.input.len() >= 0xfc { format!("{:#x}", tx.input.len()) } else { "few".to_string() }));
+    ctx.class(&format!("bigcount:outputs={}", if tx.output.len() >= 0xfc { format!("{:#x}", tx.output.len()) } else { "few".to_string() }));
+    ctx.nontrivial(&enc::tx_full(&tx));
+    Ok(())
+}
+
+fn roundtrip_core(tx: &Transaction, ctx: &mut Ctx) -> R {
     let pset = guard::guard("from_tx", 0, || Pset::from_tx(tx.clone()))?;
     let back = guard::guard("extract_tx", 0, || pset.extract_tx())?;
     ctx.eval();
@@ -29,15 +60,14 @@ fn tx_roundtrip(t: &mut Tape, ctx: &mut Ctx) -> R {
         Ok(b) => b,
         Err(e) => return Err(Failure::new(format!("extract_tx(from_tx(tx)) failed: {} for {:?}", e, tx))),
     };
-    if back != tx {
+    if &back != tx {
         // classify the difference
         let mut patched = back.clone();
         let mut nonce_only = false;
         let mut coinbase_only = false;
         if patched.output.len() == tx.output.len() {
             for (b, a) in patched.output.iter_mut().zip(tx.output.iter()) {
-                let explicit_plain = a.asset.is_explicit() && a.value.is_explicit() && a.witness.is_empty();
-                if b.nonce != a.nonce && b.nonce == Nonce::Null && a.nonce.is_confidential() && explicit_plain {
+                if b.nonce != a.nonce && b.nonce == Nonce::Null && matches!(a.nonce, Nonce::Confidential(_)) && explicit_plain(a) {
                     b.nonce = a.nonce;
                     nonce_only = true;
                 }
@@ -51,7 +81,7 @@ fn tx_roundtrip(t: &mut Tape, ctx: &mut Ctx) -> R {
                 }
             }
         }
-        let explained = patched == tx;
+        let explained = &patched == tx;
         let mut suppressed = explained;
         if explained && nonce_only && !ctx.is_known(KF_NONCE_LOST) {
             suppressed = false;
@@ -68,15 +98,26 @@ fn tx_roundtrip(t: &mut Tape, ctx: &mut Ctx) -> R {
             )));
         }
     }
-    let feats = gen::tx_features(&tx);
-    for f in &feats {
-        ctx.class(&format!("feature:{}", f));
-    }
-    if feats.iter().any(|f| ["pegin", "issuance", "reissuance", "conf-value", "conf-asset", "in-witness", "out-witness"].contains(f)) {
-        ctx.nontrivial(&enc::tx_full(&tx));
-    }
-    if ctx.wants_sample("tx") && feats.len() >= 3 {
-        ctx.sample("tx", || json!({"inputs": tx.input.len(), "outputs": tx.output.len(), "features": feats}));
+    // the two views of every input agree: what the PSET input says about itself is what the TxIn says
+    ensure!(pset.inputs().len() == tx.input.len(), "from_tx gives {} PSET inputs for {} inputs", pset.inputs().len(), tx.input.len());
+    ensure!(pset.outputs().len() == tx.output.len(), "from_tx gives {} PSET outputs for {} outputs", pset.outputs().len(), tx.output.len());
+    for (k, (pi, i)) in pset.inputs().iter().zip(tx.input.iter()).enumerate() {
+        let (pegin, has_iss, iss) = guard::guard("Input::{is_pegin,has_issuance,asset_issuance}", 0, || (pi.is_pegin(), pi.has_issuance(), pi.asset_issuance()))?;
+        ctx.eval();
+        if pegin != i.is_pegin {
+            let coinbase = i.previous_output.vout == u32::MAX && !i.is_pegin;
+            if !(coinbase && ctx.is_known(KF_COINBASE_PEGIN)) {
+                return Err(Failure::new(format!("pset::Input::from_txin(input {}).is_pegin() = {} but the input has is_pegin = {} ({:?})", k, pegin, i.is_pegin, i)));
+            }
+        }
+        let want_iss = !enc::issuance_is_null(&i.asset_issuance);
+        ensure!(has_iss == want_iss, "pset::Input::from_txin(input {}).has_issuance() = {} but the input {} an issuance ({:?})", k, has_iss, if want_iss { "carries" } else { "does not carry" }, i);
+        if want_iss {
+            ensure!(iss == i.asset_issuance, "pset::Input::from_txin(input {}).asset_issuance() = {:?} differs from the input's issuance {:?}", k, iss, i.asset_issuance);
+        } else {
+            ensure!(matches!(iss.amount, Value::Null) && matches!(iss.inflation_keys, Value::Null), "pset::Input::from_txin(input {}).asset_issuance() reports amounts for an input without issuance: {:?}", k, iss);
+        }
+        ensure!(pi.previous_txid == i.previous_output.txid, "pset::Input::from_txin(input {}) has another previous txid", k);
     }
     Ok(())
 }
@@ -112,14 +153,37 @@ fn pset_lock_reqs(p: &Pset) -> Vec<(Option<u32>, Option<u32>)> {
 }
 
 /// field-by-field reference extraction; None when the PSET cannot be extracted
-/// `coinbase_pegin_flag`: reproduce the library's treatment of index 0xffffffff when that finding is listed
 fn ref_extract(p: &Pset, unsigned: bool) -> Option<Transaction> {
-    let lock = match ref_locktime(&pset_lock_reqs(p), p.global.tx_data.fallback_locktime.map(|l| l.to_consensus_u32())) {
+    ref_extract_parts(p.global.tx_data.version, p.global.tx_data.fallback_locktime.map(|l| l.to_consensus_u32()), p.inputs(), p.outputs(), unsigned)
+}
+
+/// reference conversion of one PSET output; `None` for the asset / value when neither the explicit field nor the
+/// commitment is present. The nonce is not part of it (see `check_to_txout`).
+fn ref_txout_parts(o: &Output, unsigned: bool) -> (Option<Asset>, Option<Value>, Script, TxOutWitness) {
+    let asset = match (o.asset_comm, o.asset) {
+        (Some(g), _) => Some(Asset::Confidential(g)),
+        (None, Some(a)) => Some(Asset::Explicit(a)),
+        (None, None) => None,
+    };
+    let value = match (o.amount_comm, o.amount) {
+        (Some(c), _) => Some(Value::Confidential(c)),
+        (None, Some(v)) => Some(Value::Explicit(v)),
+        (None, None) => None,
+    };
+    let witness = if unsigned { TxOutWitness::empty() } else { TxOutWitness { surjection_proof: o.asset_surjection_proof.clone(), rangeproof: o.value_rangeproof.clone() } };
+    (asset, value, o.script_pubkey.clone(), witness)
+}
+
+/// the same from the pieces (version, fallback lock time, input maps, output maps): used with the harness's own
+/// shadow lists where the PSET was assembled by insert / remove operations
+fn ref_extract_parts(version: u32, fallback: Option<u32>, ins: &[Input], outs: &[Output], unsigned: bool) -> Option<Transaction> {
+    let reqs: Vec<(Option<u32>, Option<u32>)> = ins.iter().map(|i| (i.required_time_locktime.map(|t| t.to_consensus_u32()), i.required_height_locktime.map(|h| h.to_consensus_u32()))).collect();
+    let lock = match ref_locktime(&reqs, fallback) {
         RefLock::Ok(n) => n,
         RefLock::Conflict => return None,
     };
     let mut input = Vec::new();
-    for i in p.inputs() {
+    for i in ins {
         let raw = i.previous_output_index;
         let (vout, is_pegin) = if raw == u32::MAX { (raw, false) } else { (raw & 0x3fff_ffff, raw & (1 << 30) != 0) };
         let amount = match (i.issuance_value_amount, i.issuance_value_comm) {
@@ -156,26 +220,63 @@ fn ref_extract(p: &Pset, unsigned: bool) -> Option<Transaction> {
         });
     }
     let mut output = Vec::new();
-    for o in p.outputs() {
-        let asset = match (o.asset_comm, o.asset) {
-            (Some(g), _) => Asset::Confidential(g),
-            (None, Some(a)) => Asset::Explicit(a),
-            (None, None) => return None,
-        };
-        let value = match (o.amount_comm, o.amount) {
-            (Some(c), _) => Value::Confidential(c),
-            (None, Some(v)) => Value::Explicit(v),
-            (None, None) => return None,
-        };
-        output.push(TxOut {
-            asset,
-            value,
-            nonce: o.ecdh_pubkey.map_or(Nonce::Null, |k| Nonce::Confidential(k.inner)),
-            script_pubkey: o.script_pubkey.clone(),
-            witness: if unsigned { TxOutWitness::empty() } else { TxOutWitness { surjection_proof: o.asset_surjection_proof.clone(), rangeproof: o.value_rangeproof.clone() } },
-        });
+    for o in outs {
+        let (asset, value, script_pubkey, witness) = ref_txout_parts(o, unsigned);
+        output.push(TxOut { asset: asset?, value: value?, nonce: o.ecdh_pubkey.map_or(Nonce::Null, |k| Nonce::Confidential(k.inner)), script_pubkey, witness });
     }
-    Some(Transaction { version: p.global.tx_data.version, lock_time: LockTime::from_consensus(lock), input, output })
+    Some(Transaction { version, lock_time: LockTime::from_consensus(lock), input, output })
+}
+
+/// `Output::to_txout` is a second "PSET output -> TxOut" conversion next to the one inside `extract_tx`: it must
+/// reflect exactly the output's fields. Asset, value (commitment before explicit, Null when both are absent),
+/// script and the two witness proofs are compared with the reference. For the nonce the statement fixes no rule
+/// beyond "a field of this output": the library documents that it hands back the *blinding key* of an output
+/// that is not yet blinded, where extract_tx emits only the ECDH key - so the oracle is: Null or one of the two
+/// keys held by the output; Null when it holds neither; the ECDH key when the output is completely blinded
+/// (every rule in use agrees there).
+fn check_to_txout(o: &Output, k: usize, ctx: &mut Ctx) -> R {
+    let a = guard::guard("Output::to_txout", 0, || o.to_txout())?;
+    let b = guard::guard("Output::to_txout", 0, || o.to_txout())?;
+    ctx.eval();
+    ensure!(a == b, "Output::to_txout of output {} is not deterministic", k);
+    let (asset, value, script, witness) = ref_txout_parts(o, false);
+    let (asset, value) = (asset.unwrap_or(Asset::Null), value.unwrap_or(Value::Null));
+    ensure!(a.asset == asset, "Output::to_txout(output {}).asset = {:?}, the fields (asset {:?}, asset_comm {:?}) give {:?}", k, a.asset, o.asset, o.asset_comm, asset);
+    ensure!(a.value == value, "Output::to_txout(output {}).value = {:?}, the fields (amount {:?}, amount_comm {:?}) give {:?}", k, a.value, o.amount, o.amount_comm, value);
+    ensure!(a.script_pubkey == script, "Output::to_txout(output {}).script_pubkey = {:?}, the field is {:?}", k, a.script_pubkey, script);
+    ensure!(
+        a.witness == witness,
+        "Output::to_txout(output {}).witness (surjection proof {}, range proof {}) does not reflect the fields asset_surjection_proof ({}) / value_rangeproof ({})",
+        k,
+        a.witness.surjection_proof.as_ref().map_or("none".to_string(), |p| format!("{} bytes", p.serialize().len())),
+        a.witness.rangeproof.as_ref().map_or("none".to_string(), |p| format!("{} bytes", p.serialize().len())),
+        witness.surjection_proof.as_ref().map_or("none".to_string(), |p| format!("{} bytes", p.serialize().len())),
+        witness.rangeproof.as_ref().map_or("none".to_string(), |p| format!("{} bytes", p.serialize().len()))
+    );
+    let ecdh = o.ecdh_pubkey.map(|x| Nonce::Confidential(x.inner));
+    let bkey = o.blinding_key.map(|x| Nonce::Confidential(x.inner));
+    let fully = o.blinding_key.is_some() && o.amount_comm.is_some() && o.asset_comm.is_some() && o.value_rangeproof.is_some() && o.asset_surjection_proof.is_some() && o.ecdh_pubkey.is_some();
+    if fully {
+        ensure!(Some(a.nonce) == ecdh, "Output::to_txout(output {}) of a completely blinded output has nonce {:?}, not its ECDH key {:?}", k, a.nonce, ecdh);
+        ctx.class("to_txout:nonce=ecdh(fully blinded)");
+    } else {
+        ensure!(
+            a.nonce == Nonce::Null || Some(a.nonce) == ecdh || Some(a.nonce) == bkey,
+            "Output::to_txout(output {}).nonce = {:?} is neither Null nor a key of the output (ecdh {:?}, blinding key {:?})",
+            k, a.nonce, o.ecdh_pubkey, o.blinding_key
+        );
+        ctx.class(if a.nonce == Nonce::Null { "to_txout:nonce=null" } else if Some(a.nonce) == ecdh { "to_txout:nonce=ecdh" } else { "to_txout:nonce=blinding-key" });
+    }
+    if o.amount.is_some() && o.amount_comm.is_some() {
+        ctx.class("to_txout:amount+commitment");
+    }
+    if o.asset.is_some() && o.asset_comm.is_some() {
+        ctx.class("to_txout:asset+commitment");
+    }
+    if o.value_rangeproof.is_some() != o.asset_surjection_proof.is_some() {
+        ctx.class("to_txout:one-proof-only");
+    }
+    Ok(())
 }
 
 /// compare a library extraction with the reference, tolerating only the listed coinbase-pegin finding
@@ -226,9 +327,14 @@ fn extraction(t: &mut Tape, ctx: &mut Ctx) -> R {
         (Err(e), Some(_)) => return Err(Failure::new(format!("extract_tx failed on an extractable PSET: {}", e))),
     }
     ctx.class(if a.is_ok() { "extraction:ok" } else { "extraction:err" });
+    // the stand-alone output conversion (consumes no tape)
+    for (k, o) in p.outputs().iter().enumerate() {
+        check_to_txout(o, k, ctx)?;
+    }
     let feats = gp::pset_features(&p);
-    if a.is_ok() && !feats.is_empty() {
-        ctx.nontrivial(&elements::encode::serialize(&p));
+    if let (Ok(x), false) = (&a, feats.is_empty()) {
+        // signature from harness data only (the PSET encoder is C07's subject, not called here)
+        ctx.nontrivial(&(enc::tx_full(x), feats));
     }
     Ok(())
 }
@@ -246,6 +352,121 @@ fn ref_unique_id(p: &Pset) -> Option<[u8; 32]> {
 }
 
 const N_OPS: usize = 16;
+/// ops 16.. exist only in the `unique_id_ext` sub-check (the tape of `unique_id` keeps its meaning)
+const N_OPS_EXT: usize = 23;
+
+/// id-neutral field families the first table lacks: explicit issuance amounts + their proofs next to an existing
+/// commitment, witness-only proofs, pegin metadata, preimages, proprietary / unknown pairs, global scalars
+fn apply_op_ext(t: &mut Tape, p: &mut Pset, op: usize) -> Option<&'static str> {
+    let pl = pool();
+    let rp = |t: &mut Tape| Box::new(pl.rangeproofs[t.below(pl.rangeproofs.len())].clone());
+    let nin = p.inputs().len();
+    let nout = p.outputs().len();
+    match op {
+        16 | 17 | 19 | 20 => {
+            if nin == 0 {
+                return None;
+            }
+            // prefer an input that can take the operation's interesting branch
+            let k = match op {
+                16 => p.inputs().iter().position(|i| i.issuance_value_comm.is_some() || i.issuance_inflation_keys_comm.is_some()).filter(|_| t.chance(200)).unwrap_or_else(|| t.below(nin)),
+                _ => t.below(nin),
+            };
+            let i: &mut Input = &mut p.inputs_mut()[k];
+            Some(match op {
+                16 => {
+                    // the commitment stays the issuance amount; the explicit value and its proof are extras
+                    let mut hit = false;
+                    if i.issuance_value_comm.is_some() {
+                        i.issuance_value_amount = Some(t.edgy_u64());
+                        hit = true;
+                    }
+                    if i.issuance_inflation_keys_comm.is_some() {
+                        i.issuance_inflation_keys = Some(t.edgy_u64());
+                        hit = true;
+                    }
+                    i.in_issuance_blind_value_proof = Some(rp(t));
+                    i.in_issuance_blind_inflation_keys_proof = Some(rp(t));
+                    i.blinded_issuance = Some(t.u8());
+                    if hit {
+                        "issuance-explicit-value-next-to-commitment+proofs"
+                    } else {
+                        "issuance-blind-proofs"
+                    }
+                }
+                17 => {
+                    i.issuance_value_rangeproof = Some(rp(t));
+                    i.issuance_keys_rangeproof = Some(rp(t));
+                    i.in_utxo_rangeproof = Some(rp(t));
+                    i.pegin_witness = Some(gen::gen_stack(t, false));
+                    "input-witness-only-fields"
+                }
+                19 => {
+                    i.pegin_tx = Some(gp::gen_btc_tx(t));
+                    i.pegin_value = Some(t.edgy_u64());
+                    i.pegin_claim_script = Some(gen::gen_script(t, false));
+                    i.pegin_genesis_hash = Some(elements::BlockHash::from_byte_array(t.arr32()));
+                    let l = t.below(40);
+                    i.pegin_txout_proof = Some(t.bytes(l));
+                    "pegin-metadata"
+                }
+                _ => {
+                    let l = t.below(20);
+                    let pre = t.bytes(l);
+                    i.sha256_preimages.insert(elements::hashes::sha256::Hash::hash(&pre), pre.clone());
+                    i.hash160_preimages.insert(elements::hashes::hash160::Hash::hash(&pre), pre);
+                    let l = t.below(8);
+                    i.proprietary.insert(gp::gen_prop_key(t, 1), t.bytes(l));
+                    let l = t.below(8);
+                    i.unknown.insert(gp::gen_unknown_key(t, 1), t.bytes(l));
+                    i.tap_merkle_root = Some(elements::taproot::TapNodeHash::from_byte_array(t.arr32()));
+                    "input-preimages-proprietary-unknown"
+                }
+            })
+        }
+        18 | 21 => {
+            if nout == 0 {
+                return None;
+            }
+            let k = t.below(nout);
+            let o: &mut Output = &mut p.outputs_mut()[k];
+            Some(match op {
+                18 => {
+                    if t.bool() {
+                        o.value_rangeproof = Some(rp(t));
+                    }
+                    if t.bool() || o.value_rangeproof.is_none() {
+                        o.asset_surjection_proof = Some(Box::new(pl.surjproofs[t.below(pl.surjproofs.len())].clone()));
+                    }
+                    "output-witness-only-fields"
+                }
+                _ => {
+                    o.witness_script = Some(gen::gen_script(t, false));
+                    if o.blinding_key.is_none() {
+                        o.blinder_index = Some(t.edgy_u32());
+                    }
+                    let l = t.below(8);
+                    o.proprietary.insert(gp::gen_prop_key(t, 2), t.bytes(l));
+                    let l = t.below(8);
+                    o.unknown.insert(gp::gen_unknown_key(t, 2), t.bytes(l));
+                    "output-script-blinder-index-proprietary-unknown"
+                }
+            })
+        }
+        _ => {
+            let sc = gen::gen_tweak(t);
+            if !p.global.scalars.contains(&sc) {
+                p.global.scalars.push(sc);
+            }
+            p.global.tx_data.tx_modifiable = Some(t.u8());
+            p.global.elements_tx_modifiable_flag = Some(t.u8());
+            let l = t.below(8);
+            p.global.unknown.insert(gp::gen_unknown_key(t, 0), t.bytes(l));
+            Some("global-scalars-modifiable-unknown")
+        }
+    }
+}
+
 /// id-neutral field additions / changes; returns the label
 fn apply_op(t: &mut Tape, p: &mut Pset, op: usize) -> Option<&'static str> {
     let pl = pool();
@@ -364,13 +585,51 @@ fn apply_op(t: &mut Tape, p: &mut Pset, op: usize) -> Option<&'static str> {
 }
 
 fn unique_id_histories(t: &mut Tape, ctx: &mut Ctx) -> R {
-    let mut p = gp::gen_pset(t, &PsetOpts { extractable: true, ..PsetOpts::default() });
+    uid_history(t, ctx, false)
+}
+/// the same check with (a) time-based and mixed lock-time requirements kept (a conflict must make unique_id fail and
+/// is then repaired), (b) the operation table extended by `apply_op_ext`
+fn unique_id_ext(t: &mut Tape, ctx: &mut Ctx) -> R {
+    uid_history(t, ctx, true)
+}
+
+fn uid_history(t: &mut Tape, ctx: &mut Ctx, ext: bool) -> R {
+    let uid = |p: &Pset| guard::guard("unique_id", 0, || p.unique_id().map(|x| x.to_byte_array()));
+    let mut p = gp::gen_pset(t, &PsetOpts { extractable: !ext, ..PsetOpts::default() });
     // drop lock-time conflicts and keep it non-empty enough to be interesting
     if p.inputs().is_empty() {
         p.add_input(gp::gen_input(t, 60));
-        p.inputs_mut()[0].required_time_locktime = None;
+        if !ext {
+            p.inputs_mut()[0].required_time_locktime = None;
+        }
     }
-    let uid = |p: &Pset| guard::guard("unique_id", 0, || p.unique_id().map(|x| x.to_byte_array()));
+    if ext {
+        let fallback = p.global.tx_data.fallback_locktime.map(|l| l.to_consensus_u32());
+        match ref_locktime(&pset_lock_reqs(&p), fallback) {
+            RefLock::Conflict => {
+                // no lock time satisfies every input: there is no unsigned transaction, hence no id
+                let r = uid(&p)?;
+                ctx.eval();
+                ensure!(r.is_err(), "unique_id succeeds although the lock-time requirements {:?} conflict (no kind is supported by all)", pset_lock_reqs(&p));
+                ctx.class("uid-ext:lock-conflict->error");
+                for i in p.inputs_mut() {
+                    i.required_time_locktime = None;
+                }
+            }
+            RefLock::Ok(n) => {
+                let constrained = p.inputs().iter().any(|i| i.required_time_locktime.is_some() || i.required_height_locktime.is_some());
+                ctx.class(if !constrained {
+                    "uid-ext:lock=fallback"
+                } else if n >= 500_000_000 {
+                    "uid-ext:lock=required-time"
+                } else if p.inputs().iter().any(|i| i.required_time_locktime.is_some()) {
+                    "uid-ext:lock=required-height(time also possible or offered)"
+                } else {
+                    "uid-ext:lock=required-height"
+                });
+            }
+        }
+    }
     let id0 = match uid(&p)? {
         Ok(i) => i,
         Err(e) => return Err(Failure::new(format!("unique_id failed on an extractable PSET: {}", e))),
@@ -388,7 +647,11 @@ fn unique_id_histories(t: &mut Tape, ctx: &mut Ctx) -> R {
                     if has_sig && ctx.is_known(KF_UID_SCRIPTSIG) {
                         return Ok(());
                     }
-                    return Err(Failure::new(format!("unique_id ({}) is not the id of the unsigned transaction: lib={} ref={}", what, hex(id), hex(&w))));
+                    return Err(Failure::new(format!(
+                        "unique_id ({}) is not the id of the unsigned transaction: lib={} ref={}; lock-time requirements (time, height) {:?}, fallback {:?}, BIP370 lock time {:?}",
+                        what, hex(id), hex(&w), pset_lock_reqs(p), p.global.tx_data.fallback_locktime.map(|l| l.to_consensus_u32()),
+                        ref_locktime(&pset_lock_reqs(p), p.global.tx_data.fallback_locktime.map(|l| l.to_consensus_u32()))
+                    )));
                 }
                 Ok(())
             }
@@ -401,8 +664,14 @@ fn unique_id_histories(t: &mut Tape, ctx: &mut Ctx) -> R {
     let mut trace: Vec<&'static str> = Vec::new();
     let mut finalizer = false;
     for _ in 0..steps {
-        let op = t.below(N_OPS);
-        let Some(label) = apply_op(t, &mut p, op) else { continue };
+        let op = if ext {
+            // two thirds new operations, one third the first table
+            if t.chance(170) { N_OPS + t.below(N_OPS_EXT - N_OPS) } else { t.below(N_OPS) }
+        } else {
+            t.below(N_OPS)
+        };
+        let applied = if op < N_OPS { apply_op(t, &mut p, op) } else { apply_op_ext(t, &mut p, op) };
+        let Some(label) = applied else { continue };
         trace.push(label);
         if label.contains("finalizer") {
             finalizer = true;
@@ -456,9 +725,251 @@ fn unique_id_histories(t: &mut Tape, ctx: &mut Ctx) -> R {
     if finalizer {
         ctx.class("history:with-finalizer-step");
         ctx.nontrivial(&(hex(&id0), trace.clone()));
+    } else if ext && !trace.is_empty() {
+        ctx.nontrivial(&(hex(&id0), trace.clone()));
     }
     if ctx.wants_sample("history") && finalizer {
         ctx.sample("history", || json!({"inputs": p.inputs().len(), "outputs": p.outputs().len(), "ops": trace, "unique_id": hex(&id0)}));
+    }
+    Ok(())
+}
+
+// ---- (e) PSETs assembled with the positional constructors -------------------------------------
+
+/// what the harness expects an element to extract to when it was built by a constructor from known data
+struct ShadowIn {
+    map: Input,
+    expect: Option<TxIn>,
+    how: &'static str,
+}
+struct ShadowOut {
+    map: Output,
+    expect: Option<TxOut>,
+    how: &'static str,
+}
+
+fn mk_input(t: &mut Tape, density: u32) -> Result<ShadowIn, Failure> {
+    Ok(match t.below(4) {
+        0 => {
+            let op = OutPoint { txid: gen::gen_txid(t), vout: if t.chance(24) { u32::MAX } else { gen::gen_vout(t) } };
+            let map = guard::guard("Input::from_prevout", 0, || Input::from_prevout(op))?;
+            // "a psbt input from prevout without any issuance or pegins": spends `op`, final sequence, nothing else
+            let expect = TxIn { previous_output: op, is_pegin: false, script_sig: Script::new(), sequence: Sequence::MAX, asset_issuance: AssetIssuance::null(), witness: TxInWitness::empty() };
+            ShadowIn { map, expect: Some(expect), how: "from_prevout" }
+        }
+        1 => {
+            let txin = gen::gen_txin(t, &TxOpts { big: false, wellformed: true, ..TxOpts::default() });
+            let map = guard::guard("Input::from_txin", 0, || Input::from_txin(txin.clone()))?;
+            ShadowIn { map, expect: Some(txin), how: "from_txin" }
+        }
+        _ => ShadowIn { map: gp::gen_input(t, density), expect: None, how: "fields" },
+    })
+}
+
+fn mk_output(t: &mut Tape, density: u32, nin: usize, ctx: &mut Ctx) -> Result<ShadowOut, Failure> {
+    Ok(match t.below(4) {
+        0 => {
+            let script = gen::gen_script(t, false);
+            let amount = t.edgy_u64();
+            let asset = gen::gen_asset_id(t);
+            let key = if t.bool() { Some(gp::gen_btc_key(t)) } else { None };
+            let (s2, k2) = (script.clone(), key);
+            let map = guard::guard("Output::new_explicit", 0, || Output::new_explicit(s2, amount, asset, k2))?;
+            // an explicit output; the receiver's blinding key is PSET metadata (extract_tx emits only an ECDH key)
+            let expect = TxOut { asset: Asset::Explicit(asset), value: Value::Explicit(amount), nonce: Nonce::Null, script_pubkey: script, witness: TxOutWitness::empty() };
+            ShadowOut { map, expect: Some(expect), how: "new_explicit" }
+        }
+        1 => {
+            let txout = gen::gen_txout(t, &TxOpts { big: false, wellformed: true, ..TxOpts::default() });
+            let map = guard::guard("Output::from_txout", 0, || Output::from_txout(txout.clone()))?;
+            ShadowOut { map, expect: Some(txout), how: "from_txout" }
+        }
+        _ => {
+            let mut map = gp::gen_output(t, density, nin);
+            // insert_input shifts blinder indices up by one (`i + 1`): an index at the very top of u32 would overflow
+            // there - not a subject of C08, excluded by construction and counted
+            if let Some(b) = map.blinder_index {
+                if b > u32::MAX - 64 {
+                    map.blinder_index = Some(u32::MAX - 64);
+                    ctx.exclude();
+                }
+            }
+            if map.blinding_key.is_none() && t.chance(48) {
+                // marked for blinding and only partly blinded so far (a blinder has stored the ECDH key, maybe more)
+                map.blinding_key = Some(gp::gen_btc_key(t));
+                map.ecdh_pubkey = Some(gp::gen_btc_key(t));
+                map.blinder_index = Some(t.below(nin.max(1)) as u32);
+            }
+            ShadowOut { map, expect: None, how: "fields" }
+        }
+    })
+}
+
+fn without_blinder_index(o: &Output) -> Output {
+    let mut o = o.clone();
+    o.blinder_index = None;
+    o
+}
+
+/// the PSET against the harness's shadow lists: same maps in the same order, declared counts, extraction ==
+/// reference extraction of the SHADOW (never of `p.inputs()`), constructor-built elements extract to the data
+/// they were built from, unique id == reference id
+fn check_against_shadow(p: &Pset, sin: &[ShadowIn], sout: &[ShadowOut], trace: &[String], ctx: &mut Ctx) -> R {
+    ensure!(p.inputs().len() == sin.len(), "after {:?}: the PSET holds {} inputs, the history {}", trace, p.inputs().len(), sin.len());
+    ensure!(p.outputs().len() == sout.len(), "after {:?}: the PSET holds {} outputs, the history {}", trace, p.outputs().len(), sout.len());
+    for (k, (a, b)) in p.inputs().iter().zip(sin.iter()).enumerate() {
+        ensure!(a == &b.map, "after {:?}: input map {} of the PSET is not the map the history put there ({}): previous output {}:{:#x} vs {}:{:#x}", trace, k, b.how, a.previous_txid, a.previous_output_index, b.map.previous_txid, b.map.previous_output_index);
+    }
+    for (k, (a, b)) in p.outputs().iter().zip(sout.iter()).enumerate() {
+        // (insert_input documents that it shifts blinder indices; they are no part of the extracted transaction)
+        ensure!(without_blinder_index(a) == without_blinder_index(&b.map), "after {:?}: output map {} of the PSET is not the map the history put there ({})", trace, k, b.how);
+    }
+    let (ni, no) = guard::guard("n_inputs/n_outputs", 0, || (p.n_inputs(), p.n_outputs()))?;
+    ensure!(ni == sin.len() && no == sout.len(), "after {:?}: the PSET declares {} inputs / {} outputs but holds {} / {}", trace, ni, no, sin.len(), sout.len());
+    let ins: Vec<Input> = sin.iter().map(|x| x.map.clone()).collect();
+    let outs: Vec<Output> = sout.iter().map(|x| x.map.clone()).collect();
+    let fallback = p.global.tx_data.fallback_locktime.map(|l| l.to_consensus_u32());
+    let want = ref_extract_parts(p.global.tx_data.version, fallback, &ins, &outs, false);
+    let got = guard::guard("extract_tx", 0, || p.extract_tx())?;
+    let id = guard::guard("unique_id", 0, || p.unique_id().map(|x| x.to_byte_array()))?;
+    ctx.evals_n(2);
+    match (&got, &want) {
+        (Ok(x), Some(w)) => {
+            if !same_extraction(x, w, ctx) {
+                return Err(Failure::new(format!("after {:?}: extract_tx does not reflect the maps the history put into the PSET\n lib ={:?}\n want={:?}", trace, x, w)));
+            }
+            ensure!(x.input.len() == sin.len() && x.output.len() == sout.len(), "after {:?}: extracted {} inputs / {} outputs", trace, x.input.len(), x.output.len());
+            for (k, sh) in sin.iter().enumerate() {
+                if let Some(e) = &sh.expect {
+                    ensure!(&x.input[k] == e, "after {:?}: input {} was built by Input::{} but extracts to {:?}, expected {:?}", trace, k, sh.how, x.input[k], e);
+                }
+            }
+            for (k, sh) in sout.iter().enumerate() {
+                if let Some(e) = &sh.expect {
+                    let mut y = x.output[k].clone();
+                    if y != *e && y.nonce == Nonce::Null && matches!(e.nonce, Nonce::Confidential(_)) && explicit_plain(e) && sh.how == "from_txout" && ctx.is_known(KF_NONCE_LOST) {
+                        // the recorded finding: the key in the nonce of an unblinded output becomes the blinding key
+                        y.nonce = e.nonce;
+                    }
+                    ensure!(&y == e, "after {:?}: output {} was built by Output::{} but extracts to {:?}, expected {:?}", trace, k, sh.how, x.output[k], e);
+                }
+            }
+            match (&id, ref_extract_parts(p.global.tx_data.version, fallback, &ins, &outs, true)) {
+                (Ok(i), Some(u)) => {
+                    let w = sha256d(&enc::tx_stripped(&u));
+                    ensure!(i == &w, "after {:?}: unique_id {} is not the id {} of the unsigned transaction of the history's maps", trace, hex(i), hex(&w));
+                }
+                (Err(e), _) => return Err(Failure::new(format!("after {:?}: unique_id fails ({}) on an extractable PSET", trace, e))),
+                (Ok(_), None) => {}
+            }
+        }
+        (Err(_), None) => {
+            ensure!(id.is_err(), "after {:?}: unique_id succeeds where extraction is impossible (lock-time conflict)", trace);
+            ctx.class("edit:lock-conflict");
+        }
+        (Ok(x), None) => return Err(Failure::new(format!("after {:?}: extract_tx succeeded on a lock-time conflict: {:?}", trace, x.lock_time))),
+        (Err(e), Some(_)) => return Err(Failure::new(format!("after {:?}: extract_tx failed ({}) on a PSET whose maps determine a transaction", trace, e))),
+    }
+    Ok(())
+}
+
+fn edit_histories(t: &mut Tape, ctx: &mut Ctx) -> R {
+    let density = t.choose(&[40u32, 100, 160]);
+    let mut p = Pset::new_v2();
+    p.global.tx_data.version = if t.bool() { t.edgy_u32() } else { 2 };
+    p.global.tx_data.fallback_locktime = if t.bool() { Some(LockTime::from_consensus(t.edgy_u32())) } else { None };
+    let mut sin: Vec<ShadowIn> = Vec::new();
+    let mut sout: Vec<ShadowOut> = Vec::new();
+    let mut trace: Vec<String> = Vec::new();
+    let steps = 2 + t.below(9);
+    let mut positional = false;
+    for _ in 0..steps {
+        let op = t.below(10);
+        match op {
+            0 => {
+                let x = mk_input(t, density)?;
+                let m = x.map.clone();
+                guard::guard("add_input", 0, || p.add_input(m))?;
+                trace.push(format!("add_input({})", x.how));
+                ctx.class(&format!("edit:input-by-{}", x.how));
+                sin.push(x);
+            }
+            1 | 2 => {
+                let x = mk_input(t, density)?;
+                let pos = t.below(sin.len() + 1);
+                let m = x.map.clone();
+                guard::guard("insert_input", 0, || p.insert_input(m, pos))?;
+                trace.push(format!("insert_input({}, {})", x.how, pos));
+                ctx.class(&format!("edit:input-by-{}", x.how));
+                ctx.class(if pos == sin.len() { "edit:insert_input(end)" } else { "edit:insert_input(inside)" });
+                sin.insert(pos, x);
+                positional = true;
+            }
+            3 | 4 => {
+                // a position beyond the end is documented to return None and leave the PSET alone
+                // a position inside the list; one past the end now and then (always, while the list is empty)
+                let beyond = usize::from(t.chance(48));
+                let idx = if sin.is_empty() { 0 } else { t.below(sin.len() + beyond) };
+                let r = guard::guard("remove_input", 0, || p.remove_input(idx))?;
+                trace.push(format!("remove_input({})", idx));
+                if idx < sin.len() {
+                    let gone = sin.remove(idx);
+                    ensure!(r.as_ref() == Some(&gone.map), "after {:?}: remove_input({}) did not return the input that was there", trace, idx);
+                    ctx.class("edit:remove_input(hit)");
+                    positional = true;
+                } else {
+                    ensure!(r.is_none(), "after {:?}: remove_input({}) returned an input although only {} exist", trace, idx, sin.len());
+                    ctx.class("edit:remove_input(out of range)");
+                }
+            }
+            5 => {
+                let x = mk_output(t, density, sin.len(), ctx)?;
+                let m = x.map.clone();
+                guard::guard("add_output", 0, || p.add_output(m))?;
+                trace.push(format!("add_output({})", x.how));
+                ctx.class(&format!("edit:output-by-{}", x.how));
+                sout.push(x);
+            }
+            6 | 7 => {
+                let x = mk_output(t, density, sin.len(), ctx)?;
+                let pos = t.below(sout.len() + 1);
+                let m = x.map.clone();
+                guard::guard("insert_output", 0, || p.insert_output(m, pos))?;
+                trace.push(format!("insert_output({}, {})", x.how, pos));
+                ctx.class(&format!("edit:output-by-{}", x.how));
+                ctx.class(if pos == sout.len() { "edit:insert_output(end)" } else { "edit:insert_output(inside)" });
+                sout.insert(pos, x);
+                positional = true;
+            }
+            _ => {
+                let beyond = usize::from(t.chance(48));
+                let idx = if sout.is_empty() { 0 } else { t.below(sout.len() + beyond) };
+                let r = guard::guard("remove_output", 0, || p.remove_output(idx))?;
+                trace.push(format!("remove_output({})", idx));
+                if idx < sout.len() {
+                    let gone = sout.remove(idx);
+                    ensure!(r.as_ref().map(without_blinder_index) == Some(without_blinder_index(&gone.map)), "after {:?}: remove_output({}) did not return the output that was there", trace, idx);
+                    ctx.class("edit:remove_output(hit)");
+                    positional = true;
+                } else {
+                    ensure!(r.is_none(), "after {:?}: remove_output({}) returned an output although only {} exist", trace, idx, sout.len());
+                    ctx.class("edit:remove_output(out of range)");
+                }
+            }
+        }
+        check_against_shadow(&p, &sin, &sout, &trace, ctx)?;
+    }
+    // every output of the final PSET through the stand-alone conversion as well
+    for (k, o) in p.outputs().iter().enumerate() {
+        check_to_txout(o, k, ctx)?;
+    }
+    if positional {
+        ctx.class("edit:history-with-insert-or-remove");
+        let fin = guard::guard("extract_tx", 0, || p.extract_tx().ok())?;
+        ctx.nontrivial(&(trace.clone(), fin.map(|x| enc::tx_full(&x))));
+    }
+    if ctx.wants_sample("edit-history") && positional && trace.len() >= 4 {
+        ctx.sample("edit-history", || json!({"ops": trace, "inputs": sin.len(), "outputs": sout.len()}));
     }
     Ok(())
 }
@@ -487,8 +998,10 @@ fn locktime_assignments(idx: u64, seed: u64, ctx: &mut Ctx) -> R {
         let mut reqs = Vec::new();
         for kind in &assign {
             let mut i = Input::default();
-            let time = gp::gen_time(&mut t);
-            let height = gp::gen_height(&mut t);
+            // (a value of the documented domain that the constructor rejects cannot be assigned at all: reported, not
+            // silently replaced by another value)
+            let time = ext_g6::gen_time_checked(&mut t).map_err(Failure::new)?;
+            let height = ext_g6::gen_height_checked(&mut t).map_err(Failure::new)?;
             if kind & 1 != 0 {
                 i.required_time_locktime = Some(time);
             }
@@ -574,20 +1087,40 @@ pub fn property() -> Property {
     Property {
         id: "C08",
         rule: "tx_roundtrip: well-formed transactions (C01 generator constrained: pegin witness only on pegins, issuance proofs \
-               only on issuances, non-null asset / value, nonce Null or key); oracle: extract_tx(from_tx(tx)) == tx. extraction: generated PSETs; extract_tx twice identical and equal to the \
-               harness's field-by-field reference extraction (flag bits stripped except on 0xffffffff, commitments preferred, \
-               defaults), Err exactly on lock-time conflicts. unique_id: histories of 1..10 updater / signer / finalizer \
-               operations from a table of 16 id-neutral field additions; after every step unique_id == initial == harness \
-               txid of the reference unsigned transaction (sequences 0, empty scriptSigs, BIP370 lock time); controls: \
-               prevout / output / lock-time changes change it. locktime: ALL 341 assignments of {none,time,height,both} to \
-               0..4 inputs x 40 value draws x fallback present/absent against the BIP370 reference. Non-trivial: tx with \
-               pegin / issuance / confidential output / witness; history with a finalizer step; assignment with >=2 \
-               different constraining kinds; distinct by encoding / history / values.",
+               only on issuances, non-null asset / value, nonce Null or key); oracle: extract_tx(from_tx(tx)) == tx, and per input \
+               pset::Input::{is_pegin, has_issuance, asset_issuance, previous_txid} of the from_tx input == the TxIn's own data. \
+               tx_roundtrip_big: the same oracle on transactions with 0xfc/0xfd/0xfe/0x100/0x101 inputs and / or outputs (up to 4 \
+               distinct elements cycled, position stamped into sequence / value). extraction: generated PSETs; extract_tx twice \
+               identical and equal to the harness's field-by-field reference extraction (flag bits stripped except on \
+               0xffffffff, commitments preferred, defaults), Err exactly on lock-time conflicts; every output additionally \
+               through Output::to_txout: deterministic, asset / value (commitment first, Null when absent) / script / both \
+               witness proofs == reference, nonce Null or one of the output's two keys (ECDH key when completely blinded). \
+               edit_histories: PSETs assembled by 2..10 add_ / insert_ / remove_ input / output operations (positions <= len, \
+               removals also one past the end) from elements built by Input::from_prevout / from_txin / field generator and \
+               Output::new_explicit / from_txout / field generator, against shadow lists kept by the harness: after EVERY step \
+               same maps in the same order, declared counts, extract_tx == reference extraction of the shadow lists, \
+               constructor-built elements extract to the data they were built from, unique_id == reference id (Err on a \
+               lock-time conflict), remove_* return the removed map / None. unique_id: histories of 1..10 updater / signer / \
+               finalizer operations from a table of 16 id-neutral field additions; after every step unique_id == initial == \
+               harness txid of the reference unsigned transaction (sequences 0, empty scriptSigs, BIP370 lock time); controls: \
+               prevout / output / lock-time changes change it. unique_id_ext: the same on PSETs that keep time-based and mixed \
+               lock-time requirements (a conflict must make unique_id fail, then the time locks are dropped) with 7 further \
+               id-neutral operations (explicit issuance amount / keys + blind proofs next to an existing commitment, input and \
+               output witness-only proofs, pegin witness and metadata, preimages, proprietary / unknown pairs, global scalars \
+               and modifiable flags). locktime: ALL 341 assignments of {none,time,height,both} to 0..4 inputs x 40 value draws \
+               (incl. 0, 499999999, 500000000, 2^32-1; a constructor rejecting a value of its documented domain is reported) x \
+               fallback present/absent against the BIP370 reference. Non-trivial: tx with pegin / issuance / confidential \
+               output / witness or a count >= 0xfc; extractable PSET with a non-core feature; edit history with an insert or \
+               remove; history with a finalizer step or any extended op; assignment with >=2 different constraining kinds; \
+               distinct by encoding / extracted transaction / history / values.",
         assumptions: &["explicit 32-byte nonces are not sent through PSET conversions (the format has no field for them)"],
         subs: vec![
             Sub { name: "tx_roundtrip", kind: Kind::Tape { max_len: 3000, quick: 240_000, thorough: 3_000_000, f: tx_roundtrip } },
             Sub { name: "extraction", kind: Kind::Tape { max_len: 6000, quick: 96_000, thorough: 1_200_000, f: extraction } },
             Sub { name: "unique_id", kind: Kind::Tape { max_len: 7000, quick: 60_000, thorough: 750_000, f: unique_id_histories } },
+            Sub { name: "tx_roundtrip_big", kind: Kind::Tape { max_len: 1500, quick: 4_000, thorough: 120_000, f: tx_roundtrip_big } },
+            Sub { name: "edit_histories", kind: Kind::Tape { max_len: 7000, quick: 40_000, thorough: 800_000, f: edit_histories } },
+            Sub { name: "unique_id_ext", kind: Kind::Tape { max_len: 7000, quick: 40_000, thorough: 600_000, f: unique_id_ext } },
             Sub { name: "locktime", kind: Kind::Index { count: |t| t.pick(341, 341 * 30), exhaustive: true, f: locktime_assignments } },
         ],
         known: vec![
